@@ -43,7 +43,7 @@ CLAIMED["C08"] = (
     "histories), hence every answer equals a fresh twin's answer; queries change neither pipeline nor edit count; a witness shows the "
     "statement fails without invalidation on edit (the D5 defect, fixed). Tied to gwcs by (a) comparing every answer of generated histories "
     "with a fresh twin and snapshotting pipeline/box/shape/parameters/caller arguments around every query, (b) comparing the memo's "
-    "bookkeeping (edit count at which _calc_approx_inv ran) with the model after every event.",
+    "bookkeeping (edit count at which _calc_approx_inv ran) with the model after every event. Also a separable 3-axis WCS stream whose coupling is edited (set/insert/direct step assignment) between queries that use the separability analysis (correlation matrix, -TAB grouping), each answer compared with a freshly built twin.",
     "Trusted: Lean kernel; standard axioms; harness. Known finding D19 (astropy Identity.inverse clears the box of a bare Identity first step). "
     "Not modelled: user code mutating transform parameters in place.",
     "Lean 4 invariant proof over hand-written state machine + fresh-twin differential oracle", "DESIGN.md §6 C08")
@@ -191,7 +191,8 @@ CLAIMED["C16"] = (
     "PARTIAL: astropy's unit registry and SkyCoord frame conversion are modelled as per-axis rescalings / bijections and measured. Tied to "
     "gwcs by correspondence on generated twin pairs (9 operations per pair incl. mixed wrong-unit pixels) and by metamorphic comparison of "
     "the twins incl. a TAN imaging WCS, world inputs in deg/arcsec/arcmin/rad, m/um/nm/AA, Hz/MHz/GHz, s/min/h, SkyCoord in "
-    "ICRS/FK5/FK5(J1975)/FK4/Galactic, SpectralCoord, Time.",
+    "ICRS/FK5/FK5(J1975)/FK4/Galactic, SpectralCoord, Time; generic 1-D frames; a unit-carrying forward transform with a user-supplied "
+    "unit-free inverse (mixed_world_values).",
     "Trusted: Lean kernel; standard axioms; harness (twin construction); astropy units/coordinates (modelled). Runtime behaviour not modelled: float rounding of unit conversion (1e-11 relative).",
     "Lean 4 proofs over lists/rationals for arbitrary numeric transforms + differential and twin (metamorphic) correspondence", "DESIGN.md §6 C16")
 
